@@ -100,27 +100,23 @@ def dep_lists(universe, maxdeps):
     return out
 
 
-def exhaustive_histories(n_items, n_rounds, maxdeps, limit):
-    """All maximal protocol histories over items 0..n_items-1 (canonical seeds
-    [0], [0,1], ...), at most n_rounds rounds, dependency lists of length <= maxdeps.
-    Cycle-breaking rounds process the offered items in sorted order, as `finish` does."""
-    res = []
+def exhaustive_histories(n_items, n_rounds, maxdeps):
+    """Generator of ALL maximal protocol histories over items 0..n_items-1 (canonical seeds
+    [0], [0,1], ...), at most n_rounds rounds, dependency lists (ordered, no repetition) of
+    length <= maxdeps.  Cycle-breaking rounds process the offered items in sorted order, as
+    `finish` does."""
 
     def rounds_from(a, depth, acc):
-        if len(res) >= limit:
-            return
         if depth == n_rounds or not a.pending:
-            res.append(list(acc))
+            yield [list(r) for r in acc]
             return
         offered, cyc = a.offer()
         order = sorted(offered) if cyc else offered
 
         def events(a2, i, racc):
-            if len(res) >= limit:
-                return
             if i == len(order):
                 acc.append(list(racc))
-                rounds_from(a2, depth + 1, acc)
+                yield from rounds_from(a2, depth + 1, acc)
                 acc.pop()
                 return
             x = order[i]
@@ -129,18 +125,26 @@ def exhaustive_histories(n_items, n_rounds, maxdeps, limit):
                 a3 = a2.copy()
                 a3.apply((x, ds))
                 racc.append((x, ds))
-                events(a3, i + 1, racc)
+                yield from events(a3, i + 1, racc)
                 racc.pop()
 
-        events(a, 0, [])
+        yield from events(a, 0, [])
 
-    out = []
     for k in range(1, n_items + 1):
         seed = list(range(k))
-        res = []
-        rounds_from(Abs(seed), 0, [])
-        out += [(seed, r) for r in res]
-    return out
+        for r in rounds_from(Abs(seed), 0, []):
+            yield (seed, r)
+
+
+def chunked(it, n):
+    buf = []
+    for x in it:
+        buf.append(x)
+        if len(buf) >= n:
+            yield buf
+            buf = []
+    if buf:
+        yield buf
 
 
 def random_history(rng, n_items, n_rounds, maxdeps):
@@ -304,7 +308,11 @@ def stream_a(fl, drv, har, name, hists, known_protocol=True):
     fl.stream(name, len(olines), diffs, first)
     v.coverage["evaluations"] += evals
     v.coverage["distinct_nontrivial"] += nontriv
-    v.coverage.setdefault("stream_stats", {})[name] = stats
+    old = v.coverage.setdefault("stream_stats", {}).get(name)
+    if old:
+        for k in stats:
+            stats[k] += old.get(k, 0)
+    v.coverage["stream_stats"][name] = stats
     v.add_samples([{"stream": name, "history": hlines[k], "implementation": impl[k][:300], "spec": spec[k][:300]}
                    for k in (len(hlines) // 2,)] if hlines else [])
 
@@ -517,14 +525,18 @@ def run(tier, seed):
     quick = tier == "quick"
     if drv and har:
         # ---- stream A1: corpus + exhaustive small protocol histories ----------------
-        if quick:
-            ex = exhaustive_histories(3, 3, 1, 400000)
-        else:
-            ex = exhaustive_histories(3, 4, 1, 3000000) + exhaustive_histories(3, 3, 2, 3000000)
-        stream_a(fl, drv, har, "A1 exhaustive protocol histories (<=3 items, <=%d rounds)" % (3 if quick else 4),
-                 corpus_histories() + ex)
+        name = "A1 exhaustive protocol histories (<=3 items, <=%d rounds, single deps%s)" % (
+            (3, "") if quick else (4, "; <=2 items, <=4 rounds, dep lists <=2"))
+        gens = [exhaustive_histories(3, 3, 1)] if quick else [exhaustive_histories(3, 4, 1), exhaustive_histories(2, 4, 2)]
+        n_ex = 0
+        first_chunk = True
+        for gen in gens:
+            for chunk in chunked(gen, 150000):
+                n_ex += len(chunk)
+                stream_a(fl, drv, har, name, (corpus_histories() if first_chunk else []) + chunk)
+                first_chunk = False
         v.coverage["exhaustive"] = True
-        v.coverage["exhaustive_histories"] = len(ex)
+        v.coverage["exhaustive_histories"] = n_ex
         # ---- stream A2: random protocol histories -----------------------------------
         rng = fl.rng.fork("A2")
         n = 20000 if quick else 300000
